@@ -335,6 +335,32 @@ def run(prop, tier):
                               {"engine": "ovnidump", "model": model, "signature": e.sig, "values": vals, "expected": want, "got": got},
                               {"kind": "dump-decode", "mcv": e.mcv})
         ctx.part("ovnidump-decode", cases=len(jobs))
+        # ... and all of them in ONE dump, ordered so that consecutive events come from different models but share category and
+        # value wherever several models have such a code (what one event leaves behind must not colour the next)
+        allev = sorted(((e.mcv[1:], model, e) for model in models for e in listed[model]["events"]), key=lambda x: (x[0], x[1]))
+        for val in (1, 7):
+            hist = [mk_event(0, e, [val] * len(e.args)) for (_, _, e) in allev]
+            td = os.path.join(base, "all%d" % val)
+            system = emusrv.System([{"name": "A", "cpus": [(0, 0)], "procs": [{"pid": 1, "threads": [2]}]}])
+            emusrv.materialise(system, td, hist, {0: "loom.A/proc.1/thread.2"})
+            rc, out, err = emusrv.run_tool(dump, [td])
+            lines = [l for l in out.split("\n") if l.strip()]
+            ctx.add(evaluations=len(allev), transitions=len(allev), traces_validated_against_impl=1)
+            if rc != 0 or len(lines) != len(allev):
+                ctx.violation("ovnidump on one stream holding all %d listed events: exit %r, %d lines: %s" % (len(allev), rc, len(lines), err[-200:]),
+                              {"engine": "ovnidump", "check": "all-in-one", "value": val}, {"kind": "dump-all"})
+                continue
+            nbad = 0
+            for (cv, model, e), l in zip(allev, lines):
+                k = l.split(None, 3)
+                got = k[3] if len(k) > 3 else ""
+                want = expected_description(e, [val] * len(e.args))
+                if got.strip() != want.strip():
+                    nbad += 1
+                    if nbad <= 2:
+                        ctx.violation("ovnidump, all listed events in one stream: %s of model %s is printed as %r, the listed description gives %r" % (e.mcv, model, got, want),
+                                      {"engine": "ovnidump", "check": "all-in-one", "value": val, "mcv": e.mcv, "model": model}, {"kind": "dump-all", "mcv": e.mcv})
+        ctx.part("ovnidump-all-in-one", events=len(allev))
         ctx.add(states=len(jobs))
         ctx.sample({"model": "nosv", "unlisted_probe": "VS~ without payload and with 16 bytes", "expected": "refused"})
         ctx.sample({"ovnidump": "OHx(i32 cpu, i32 tid, u64 tag) with values -1 -> 'begins the execution on CPU -1 created from -1 with tag 0xffffffffffffffff'"})
